@@ -915,6 +915,10 @@ func (x *c18) runLegalRaw() {
 			core.Files{Main: panCfg(`<rulebase><security><rules>` + panRule("r1", "any") + `</rules></security></rulebase>`),
 				V6: panCfg(`<rulebase><security><rules>` + panRule("v6r1", "sg6") + `</rules></security></rulebase><service-group><entry name="sg6"><members><member>tcp 82</member></members></entry></service-group><service><entry name="tcp 82"><protocol><tcp><port>82</port></tcp></protocol></entry></service>`)},
 			map[string]int{"service-group/entry[@name='sg6']": 1}},
+		{"IOS", "IPv6 part of an IOS router", iosIntf("Ethernet0", "10.0.0.1"),
+			core.Files{Main: "ip access-list extended inside_in\n permit ip host 10.1.1.1 any\ninterface Ethernet0\n ip address 10.0.0.1 255.255.255.0\n ip access-group inside_in in\n",
+				V6: "ipv6 access-list inside6_in\n permit ipv6 host 1000::1 any\n deny ipv6 any any\ninterface Ethernet0\n ipv6 traffic-filter inside6_in in\nipv6 route 1000:2::/64 1000::2\n"},
+			map[string]int{"permit ipv6 host 1000::1 any": 1, "ipv6 traffic-filter inside6_in in": 1, "ipv6 route 1000:2::/64 1000::2": 1}},
 		{"Linux", "raw route identical to a Netspoc route", "",
 			core.Files{Main: "ip route add 10.20.0.0/16 via 10.1.2.3\n", Raw: "ip route add 10.20.0.0/16 via 10.1.2.3\nip route add 10.30.0.0/16 via 10.1.2.3\n"},
 			map[string]int{"ip route add 10.20.0.0/16 via 10.1.2.3": 1, "ip route add 10.30.0.0/16 via 10.1.2.3": 1}},
